@@ -91,8 +91,19 @@ func VerifC18Seq() {
 	txn := c18Begin(s, serial)
 	var expect []c18Expect
 	aborted := false
+	nested, anyNested := false, false
+	var nestedOp keyvalue.OpID = -1
 	handlerFor := func(id string) (keyvalue.OpHandler, bool, bool) {
-		switch verifChoice(id+".handler", 3) {
+		switch verifChoice(id+".handler", 4) {
+		case 3:
+			// the handler's "opportunity to perform more operations": a Get of key b issued from inside it is a
+			// call of its own (own id, own result)
+			verifTag("handler", "issues-an-operation")
+			nested = true
+			return keyvalue.OpHandlerFunc(func(t keyvalue.Transaction, r keyvalue.OpResult) error {
+				nestedOp = t.Get(c18Keys[1])
+				return nil
+			}), false, false
 		case 1:
 			verifTag("handler", "fails")
 			return keyvalue.OpHandlerFunc(func(t keyvalue.Transaction, r keyvalue.OpResult) error { return c18ErrHandler }), true, false
@@ -113,8 +124,20 @@ func VerifC18Seq() {
 			expect = append(expect, c18Expect{isGet: true, key: k, afterAbort: aborted, want: model[k]})
 		case 1:
 			h, herr, habort := handlerFor(id)
+			isNested := nested
+			nested = false
 			op = txn.GetHandler(c18Keys[k], h)
 			expect = append(expect, c18Expect{isGet: true, key: k, afterAbort: aborted, handlerErr: herr, want: model[k]})
+			if isNested {
+				verifAssert(int64(op) == int64(len(expect)-1), "operation ids must count the calls in order")
+				if nestedOp >= 0 { // the handler ran (it does not for a call made after Abort)
+					verifAssert(int64(nestedOp) == int64(len(expect)), "an operation issued by a handler must get the next operation id")
+					expect = append(expect, c18Expect{isGet: true, key: 1, afterAbort: aborted, want: model[1]})
+					anyNested = true
+				}
+				nestedOp = -1
+				continue
+			}
 			if habort && !aborted {
 				aborted = true
 				verifTag("abort", "by-handler")
@@ -136,10 +159,22 @@ func VerifC18Seq() {
 		case 3:
 			h, herr, habort := handlerFor(id)
 			m, b := hackpadfs.FileMode(verifUint32(id+".mode")), verifByte(id+".b")
+			isNested := nested
+			nested = false
 			op = txn.SetHandler(c18Keys[k], c18Record(m, b), blob.NewBytes([]byte{b}), h)
 			expect = append(expect, c18Expect{key: k, afterAbort: aborted, handlerErr: herr})
 			if !aborted {
 				model[k] = c18Rec{true, m, b}
+			}
+			if isNested {
+				verifAssert(int64(op) == int64(len(expect)-1), "operation ids must count the calls in order")
+				if nestedOp >= 0 {
+					verifAssert(int64(nestedOp) == int64(len(expect)), "an operation issued by a handler must get the next operation id")
+					expect = append(expect, c18Expect{isGet: true, key: 1, afterAbort: aborted, want: model[1]})
+					anyNested = true
+				}
+				nestedOp = -1
+				continue
 			}
 			if habort && !aborted {
 				aborted = true
@@ -180,7 +215,19 @@ func VerifC18Seq() {
 		verifAssert(len(results) == len(expect), "Commit must return exactly one result per call")
 		for i, ex := range expect {
 			res := results[i]
-			verifAssert(int64(res.Op) == int64(i), "results must be in call order with matching operation ids")
+			if anyNested {
+				// the result of an operation issued by a handler may precede its parent's: look results up by id
+				found := 0
+				for _, r := range results {
+					if int64(r.Op) == int64(i) {
+						res = r
+						found++
+					}
+				}
+				verifAssert(found == 1, "Commit must return exactly one result per operation id")
+			} else {
+				verifAssert(int64(res.Op) == int64(i), "results must be in call order with matching operation ids")
+			}
 			switch {
 			case ex.afterAbort:
 				verifAssert(res.Err != nil, "a call made after Abort must report an error")
